@@ -43,6 +43,11 @@ def slices(tier):
             ("U3x3x3", spaces.shape_pairs(3, 3), u3, quick_menu[:3]),
             # 4 object leaves: two INHERIT siblings below a node that gains a family (shared-set hazards)
             ("U4x2x2", spaces.shape_pairs(4, 2, min_obj=4), u2, [core[1], core[0]]),
+            # 5 object leaves in a chain: four nested ancestors (an INHERIT node above an INHERIT node that gains a family)
+            ("U5chainx1x3", [(sh, None) for sh in spaces.chain_shapes(5)], u3, [core[0]]),
+            # 4 object leaves, 3 families, a cherry of species: an ancestor that inherits a family none of its leaves
+            # carries and transfers a child to the sister species
+            ("U4chainx2x3", [(sh, (None, None)) for sh in spaces.chain_shapes(4)], u3, [core[0]]),
         ]
     full = core + [c for c in c02.EXTRA_VECTORS if spaces.coherent(c)]
     return [
@@ -50,6 +55,7 @@ def slices(tier):
         ("U4x3x2", spaces.shape_pairs(4, 3, min_obj=4), u2, core),
         ("U4x2x4", spaces.shape_pairs(4, 2, min_obj=4), u4, core[:4]),
         ("U5x2x2", spaces.shape_pairs(5, 2, min_obj=5), u2, core[:3]),
+        ("U5chainx1x3", [(sh, None) for sh in spaces.chain_shapes(5)], u3, [core[0], core[1], core[4]]),
     ]
 
 
